@@ -476,6 +476,9 @@ func validTagName(s string) bool {
 	return true
 }
 
+// ValidTagName is the exported form of validTagName.
+func ValidTagName(s string) bool { return validTagName(s) }
+
 // JSONName returns the name encoding/json gives a (non-embedded) field, "" if it is omitted.
 // Own small tag parser, used by the oracles of C16.
 func JSONName(f FD) string {
